@@ -42,7 +42,7 @@ NsRels == {"same", "extended", "truncated", "other_method", "method_prefix_only"
 \* how the initial state is spelled
 Encodings == {"canonical", "whitespace", "member_order", "padded", "trailing_bits", "tampered_char",
               "not_base64url", "other_request", "update_request", "empty"}
-SuffixRels == {"matching", "other", "empty"}
+SuffixRels == {"matching", "other", "empty", "prefixed", "suffixed", "doubled"}
 Forms == {"long", "short"}
 
 
